@@ -208,13 +208,17 @@ def z3_enumeration(run: Run, maxsize: int):
 
     run.encodes(CategorizedKeyExtract.generate_possible_content_evaluation_results)
     states = [CFV.FULFILLED, CFV.UNFULFILLED, CFV.UNKNOWN]
+    configs = []
     for m, nfc in itertools.product(range(maxsize + 1), repeat=2):
         if m + nfc == 0:
             continue  # outside the claim (DESIGN §C18)
-        rcs = [str(k) for k in (3, 17, 2001)[:m]]
-        fcs = [str(k) for k in (901, 950, 999)[:nfc]]
+        configs.append(([str(k) for k in (3, 17, 2001)[:m]], [str(k) for k in (901, 950, 999)[:nfc]]))
+    # key lists whose digits concatenate alike (a history of calls in one process must not matter)
+    configs += [(["1", "23"], []), (["123"], []), (["12", "3"], ["901"]), (["1", "2", "3"], ["901"]), (["2", "4"], ["901"]), (["24"], ["901"]), (["3", "17"], ["901"])]
+    for rcs, fcs in configs:
+        m, nfc = len(rcs), len(fcs)
         x = CategorizedKeyExtract(hint_keys=["501"], format_constraint_keys=list(fcs), requirement_constraint_keys=list(rcs), package_keys=[], time_condition_keys=[])
-        name = f"enumeration m={m} rc keys, n={nfc} fc keys: every assignment exactly once"
+        name = f"enumeration rc keys {rcs}, fc keys {fcs}: every assignment exactly once"
         try:
             res = x.generate_possible_content_evaluation_results()
         except Exception as e:  # pylint:disable=broad-except
